@@ -17,7 +17,7 @@ import (
 	"pgregory.net/rapid"
 
 	"verif/harness/internal/rec"
-	"verif/harness/internal/vt"
+	"verif/harness/vt"
 )
 
 func TestMain(m *testing.M) { vt.Main(m) }
